@@ -324,6 +324,19 @@ func (Sim) Run(raw json.RawMessage, prop string, keep bool) (res simfw.Result) {
 	for g := range outcomes {
 		for k, o := range outcomes[g] {
 			log.Add(fmt.Sprintf("g%d", g), "op", s.Callers[g][k].Kind, o)
+			// reach: every kind of call (and, for request validation, every method) must sometimes be accepted:
+			// a document change that makes a whole class of calls fail early would otherwise go unnoticed
+			op := s.Callers[g][k]
+			what := op.Kind
+			if op.Kind == "vreq" {
+				what += "-" + op.Method
+			}
+			switch {
+			case strings.HasPrefix(o, "ok"), strings.HasPrefix(o, "route "), strings.HasPrefix(o, "match=true"), strings.HasPrefix(o, "status 2"), strings.HasPrefix(o, "loaded"), strings.HasPrefix(o, "gen "):
+				res.Probe("accepted-" + what)
+			case strings.HasPrefix(o, "reject"), strings.HasPrefix(o, "match=false"), strings.HasPrefix(o, "status "):
+				res.Probe("rejected-" + what)
+			}
 		}
 	}
 	if inLib > 0 {
